@@ -6,6 +6,11 @@ import json, subprocess
 HOOK_COMMITS = ["4609c65", "f4b1344"]
 
 CHECKS = {
+ "C02": dict(engine="E2E", cat="exploration",
+   technique="proptest-generated end-to-end transfers over a fair-lossy simulated network with a virtual-time deadline oracle; loss-free runs with same-instant promptness oracles",
+   text="(a) Generated bidirectional transfers under a fair-lossy fault plan (per-identity drop budget k in {1,2}, bounded delay/duplication, handshake protected): by a virtual deadline derived from the plan everything written is read, flush/shutdown resolved, nothing failed; a miss is re-run with 4x the deadline before being reported. (b) Loss-free fixed-latency runs: silent interval with undelivered bytes <= 2L+40 ms, write/shutdown on an idle connection act at the same virtual instant, no retransmission for L<=60 ms.",
+   note="'eventually' = before a generous virtual deadline; inactivity limit raised to 1 h in (a) (back-off ratchet vs. 10 s default noted as an observation); known findings F8 and F7 excluded by counted guards, exercised by witnesses", ref="§5 C02"),
+
  "C17": dict(engine="SP", cat="exploration",
    technique="bounded-exhaustive enumeration of event sequences over a 24-event alphabet from 7 start states plus proptest-generated longer sequences; state-graph observer oracle on the wire log",
    text="All sequences of peer packets / application actions / clock advances up to depth 2 (quick) or 3 (thorough, ~0.2M) from every handshake/teardown state and both handshake directions, plus generated sequences up to 20 events; an observer of docs/states.dot checks SYN-ACK form/interval/count, own FIN numbering/ordering/back-off/dueness, peer FIN honoured only in sequence and acked/answered at the same instant, RESET silence and prompt failure, silence after the end.",
